@@ -23,6 +23,20 @@ const c07Bystander = "b@x.io"
 // to the session in them is entirely the remember middleware's doing.
 var probeKinds = map[string]bool{"open": true, "prot": true, "full": true}
 
+// c07Model records what each browser's most recent OAuth2 start request asked for.
+func c07Model(st *engine.Step) {
+	o := st.Obs
+	if o == nil || o.Req.Tag.Kind != "oauth_start" || !o.Wrote {
+		return
+	}
+	k := "c07:oauth-asked:" + o.Req.Browser
+	if strings.Contains(o.Req.Tag.Note, "rm=true") {
+		st.Post.Truth.Flags[k] = "rm"
+	} else {
+		delete(st.Post.Truth.Flags, k)
+	}
+}
+
 func c07Monitor(st *engine.Step) {
 	o := st.Obs
 	if o == nil {
@@ -36,7 +50,9 @@ func c07Monitor(st *engine.Step) {
 
 	// (issue) a cookie is only issued when the user asked to be remembered.
 	if c2 != "" && c2 != c {
-		asked := tag.RM || (tag.Kind == "oauth_cb" && strings.Contains(o.SessBefore[authboss.SessionOAuth2Params], `"rm":"true"`))
+		// for an OAuth2 callback, "asked" is what the browser's most recent start request asked for
+		// (the oracle's own record - the session's parameter blob may be a leftover of an abandoned start)
+		asked := tag.RM || (tag.Kind == "oauth_cb" && pre.Truth.Flags["c07:oauth-asked:"+b] == "rm")
 		rotated := o.UIDBefore() == "" && c != ""
 		if !asked && !rotated {
 			st.Report(engine.Violation{Rule: "C07/cookie-issued-unasked", Attrs: "kind=" + tag.Kind,
@@ -282,7 +298,7 @@ func c07Scenarios(tier string) []engine.Scenario {
 			flows.SeedAcct(s, w, flows.Acct{PID: c07Bystander, Password: P2})
 			return w
 		},
-		Monitor: c07Monitor, Cover: c07Cover,
+		Model: c07Model, Monitor: c07Monitor, Cover: c07Cover,
 		Need: []string{"cookie-issued:oauth_cb", "cookie-used:live:oauth2-built"},
 	}
 	oa.Actions = func(s *world.Stack, w *world.World) []engine.Action {
